@@ -13,6 +13,10 @@ for d in sorted(root.iterdir()):
         first = next((l.strip() for l in v.get("first_lines", []) if ":" in l and not l.startswith("VIOLATION")), "")
         tag = "caught" if v.get("exit") == 1 else ("MISSED" if v.get("exit") == 0 else f"exit {v.get('exit')}")
         res.append(f"{c}: **{tag}**" + (f" (`{first[:110]}`)" if first and tag == "caught" else ""))
+    if d.name.startswith("harmless"):
+        he = m.get("harmless_evaluation", {})
+        res = [("checks " + ", ".join(he.get("checks", [])) + ": " + ("**no alarm**" if not he.get("alarms") else "alarm (`translator-unsupported … no-failing-input-found`) in " + ", ".join(sorted(he["alarms"])))) if he else "not evaluated"]
+        m = {**m, "property": "(harmless)", "needs": m.get("why_harmless", "")}
     clean = lambda s: " ".join(str(s).split()).replace("|", "/")  # noqa: E731
     print(f"| `seeded/{d.name}` | {m.get('property')} | {clean(m.get('summary', ''))[:260]} | {clean(m.get('needs', ''))[:200]} | {'; '.join(res)} |")
 
